@@ -148,6 +148,11 @@ def layer_a_float_units(quick: bool, wide: bool = False) -> List[Tuple[str, List
                 pid = f"f_{base[-2:]}_{ {True: 'h', False: 'l', None: 'n'}[order]}_{'a' if byte is None else byte}"
                 progs.append(one_value_program(pid, {"dct": std(base, 32 if base == "A_FLOAT32" else 64, None, order)}, byte, None,
                                                list(vals), ("float", base)))
+    # float on the wire, integer physical type: non-finite wire values have no integer image
+    lin = {"cat": "LINEAR", "i2p": [{"num": [0, 1], "den": [1]}]}
+    for base in ("A_FLOAT32", "A_FLOAT64"):
+        progs.append(one_value_program(f"f2i_{base[-2:]}", {"dct": std(base, 32 if base == "A_FLOAT32" else 64), "phys": "A_INT32", "cm": lin}, None, None,
+                                       [1, -5, 0, 100000] + ([1 << 40, 1.5] if wide else []), ("float", base + "-to-int")))
     return [("A/float", progs)]
 
 
@@ -440,6 +445,7 @@ def templates() -> Dict[str, Any]:
     reg("CC16L", 2, lambda i: [{}], lambda i: [P("CODED-CONST", f"ccl{i}", dct=std("A_UINT32", 16, None, False), value=0x1234)])
     reg("CCNIB", 1, lambda i: [{}], lambda i: [P("CODED-CONST", f"nl{i}", dct=std("A_UINT32", 4), value=0xA, bit=0),
                                                P("CODED-CONST", f"nh{i}", dct=std("A_UINT32", 4), value=0x5, bit=4)], rel=[(0, 0), (1, 0)])
+    reg("CCMM", None, lambda i: [{}], lambda i: [P("CODED-CONST", f"cm{i}", dct={"k": "MINMAX", "base": "A_ASCIISTRING", "min": 1, "max": 4, "term": "ZERO"}, value="AB")])
     reg("PC", 1, lambda i: [{}], lambda i: [P("PHYS-CONST", f"pc{i}", dop="i8lin", const=7)])
     reg("V8", 1, lambda i: [{f"v{i}": 0}, {f"v{i}": 1}, {f"v{i}": 255}], lambda i: [P("VALUE", f"v{i}", dop="u8")])
     reg("V12b", 2, lambda i: [{f"w{i}": 0}, {f"w{i}": 0xABC}, {f"w{i}": 0xFFF}], lambda i: [P("VALUE", f"w{i}", dop="u12", bit=3)])
@@ -520,7 +526,7 @@ def templates() -> Dict[str, Any]:
 
 
 SIGMA_FULL = ["CC8", "CC16L", "CCNIB", "PC", "V8", "V12b", "V8b4", "VF32", "SLK", "VLIN", "VDEF", "VTT", "RES8", "RES4", "SYS", "LK", "TKS", "TKSROW", "SFLAT",
-              "SSUB", "SNEST", "SSIZED", "SF2", "SF2p", "DL1", "DL2", "EOP", "EMLAST", "EMCC", "MUXd", "MUXn", "MUXe", "MUXf", "SDYN", "EOPD", "DLD", "EMD", "MUXD", "EOPDE", "EOPLK", "SKB2", "SKB4", "VLDEF", "DTC", "DTCENV", "BZ", "BEOP", "LEAD", "SFV", "EMT", "EMTC", "TKS2"]
+              "SSUB", "SNEST", "SSIZED", "SF2", "SF2p", "DL1", "DL2", "EOP", "EMLAST", "EMCC", "MUXd", "MUXn", "MUXe", "MUXf", "SDYN", "EOPD", "DLD", "EMD", "MUXD", "EOPDE", "EOPLK", "SKB2", "SKB4", "VLDEF", "DTC", "DTCENV", "BZ", "BEOP", "LEAD", "SFV", "EMT", "EMTC", "TKS2", "CCMM"]
 SIGMA_3 = ["CC8", "V8", "V12b", "V8b4", "VDEF", "RES8", "LK", "TKS", "SFLAT", "SSIZED", "SF2p", "DL1", "EOP", "MUXd", "DTCENV", "BZ", "SDYN", "EOPD"]
 SIGMA_4 = ["CC8", "V12b", "SSIZED", "DL1", "MUXd", "BZ"]
 MODES = ["auto", "at", "hole"]
